@@ -93,3 +93,40 @@ Section Edit.
       + destruct (Z.eqb_spec (Z.of_nat b') (Z.of_nat e')); cbn [b2z negb truth bind Z.eqb]; rewrite exec_skip, C; reflexivity.
   Qed.
 End Edit.
+
+(* ------------------------------------------------------------------ the first lbuf_opt of a buffer: hist == NULL *)
+(* lbuf_make zeroes the struct: hist == NULL, hist_sz == hist_n == hist_u == 0.  The first lbuf_opt takes the growth branch with
+   sz = 0 + HIST_INIT (GenConsts), allocates the array, and calls memcpy(hist, lb->hist, 0) with lb->hist == NULL: undefined by
+   C11 7.24.1p2 (a null pointer argument, even for n == 0), and an error of CLite.v's memcpy.  (Harmless with every libc; the
+   theorems above therefore start from a buffer whose log array exists.) *)
+Theorem tr_lbuf_opt_null_hist ext (m : mem) bl (blk : block) (bufv : val) p nd d fuel : nth_error m bl = Some blk -> length blk = LBUF_CELLS ->
+  nth_error blk L_hist = Some (VInt 0) -> nth_error blk L_hist_sz = Some (VInt 0) -> nth_error blk L_hist_n = Some (VInt 0) ->
+  nth_error blk L_hist_u = Some (VInt 0) -> (0 < fuel)%nat ->
+  callx ext cprog fuel (S (S (S (S d)))) F_lbuf_opt [VPtr bl 0; bufv; VInt p; VInt nd] m = Err EShape.
+Proof.
+  intros Hb L C69 C70 C71 C72 Hf. destruct fuel as [|fuel]; [lia|].
+  assert (Hbl : (bl < length m)%nat) by (apply nth_error_Some; congruence).
+  rewrite callx_S. cbn [nth_error cprog F_lbuf_opt cf_lbuf_opt fn_nparams fn_nlocals fn_body length Nat.eqb Nat.sub repeat app].
+  xstep. xfld Hb C72. rewrite exec_for. xstep. xfld Hb C71. change (wrap I32 0 <? wrap I32 0) with false. xstep.
+  xfld Hb C72. change (wrap I32 (wrap I32 0)) with 0.
+  rewrite (fld_store m bl blk L_hist_n _ _ Hb) by (try reflexivity; rewrite L; unfold LBUF_CELLS, L_hist_n; lia). xstep.
+  set (b1 := upd blk L_hist_n (VInt 0)).
+  assert (L1 : length b1 = LBUF_CELLS) by (unfold b1; rewrite upd_length; [exact L|rewrite L; unfold LBUF_CELLS, L_hist_n; lia]).
+  assert (D71 : nth_error b1 L_hist_n = Some (VInt 0)) by (unfold b1; apply nth_error_upd_same; rewrite L; unfold LBUF_CELLS, L_hist_n; lia).
+  assert (D70 : nth_error b1 L_hist_sz = Some (VInt 0)) by (unfold b1; rewrite nth_error_upd_other by (try (unfold L_hist_sz, L_hist_n; lia); rewrite L; unfold LBUF_CELLS, L_hist_n; lia); exact C70).
+  assert (D69 : nth_error b1 L_hist = Some (VInt 0)) by (unfold b1; rewrite nth_error_upd_other by (try (unfold L_hist, L_hist_n; lia); rewrite L; unfold LBUF_CELLS, L_hist_n; lia); exact C69).
+  rewrite (fld_load_upd m bl b1 L_hist_n _ _ Hbl D71) by reflexivity. xstep.
+  rewrite (fld_load_upd m bl b1 L_hist_sz _ _ Hbl D70) by reflexivity. xstep. change (wrap I32 0 =? wrap I32 0) with true. xstep.
+  rewrite (fld_load_upd m bl b1 L_hist_sz _ _ Hbl D70) by reflexivity. xstep.
+  rewrite (fld_load_upd m bl b1 L_hist_sz _ _ Hbl D70) by reflexivity. xstep.
+  change (wrap I32 0 =? 0) with true. xstep. change (chk I32 (wrap I32 0 + 128)) with (@Ok Z 128). xstep.
+  change (wrap U64 128) with 128. change (chk U64 (128 * 56)) with (@Ok Z 7168). xstep. change (chk U64 (7168 * 9)) with (@Ok Z 64512). xstep.
+  change (if 56 =? 0 then Err EDivZero else chk U64 (64512 ÷ 56)) with (@Ok Z 1152). xstep. rewrite malloc_ok by lia. xstep.
+  set (M := upd m bl b1 ++ [repeat VUndef (Z.to_nat 1152)]).
+  assert (HM : nth_error M bl = Some b1) by (unfold M; rewrite nth_error_app_old by (rewrite upd_length by exact Hbl; exact Hbl); apply mem_upd_same; exact Hbl).
+  xfld HM D69. xfld HM D71. change (wrap U64 (wrap I32 0)) with 0. change (chk U64 (0 * 56)) with (@Ok Z 0). xstep. change (chk U64 (0 * 9)) with (@Ok Z 0). xstep.
+  change (if 56 =? 0 then Err EDivZero else chk U64 (0 ÷ 56)) with (@Ok Z 0). xstep. reflexivity.
+Qed.
+(* the array allocated on that path has HIST_INIT records (1152 cells = 9 * HIST_INIT; HIST_INIT is read from lbuf.c by tools/translate.py) *)
+Lemma null_hist_alloc_is_HIST_INIT : 1152 = 9 * HIST_INIT.
+Proof. reflexivity. Qed.
